@@ -50,7 +50,7 @@ RConsumers == {S("manifest.head", "$r", "", "", ""), S("tag.delete", "$r", "", "
 Chains == {<<p, c>> : p \in MProducers, c \in MConsumers}
           \cup {<<p, c>> : p \in BProducers, c \in BConsumers}
           \cup {<<p, c>> : p \in CProducers, c \in CConsumers}
-          \cup {<<p, s, c>> : p \in RProducers, s \in RSetters, c \in RConsumers}
+          \cup {t \in {<<p, s, c>> : p \in RProducers, s \in RSetters, c \in RConsumers} : t[2].l2 # "none" \/ t[3].op \notin CopyOps}
           \cup {<<p, S("m:export", "", "", "", ""), S("manifest.put", "b1", "new", "", "")>> : p \in {A1v1}}
 
 \* one write per write binding and kind of place, and the reads that would see its effect
@@ -116,7 +116,7 @@ FailInside == {<<S("manifest.getList", "a1", "ix", "", ""), S("image.config", "$
                <<S("manifest.head", "a1", "v1", "", ""), S("m:config", "", "", "", "")>>,
                Sq(S("image.importTar", "b1", "new", "missing", "")), Sq(S("image.importTar", "lay", "new", "bad", "")),
                Sq(S("image.exportTar", "a1", "v1", "baddir", "")), Sq(S("image.exportTar", "a1", "none", "out", "")),
-               Sq(S("image.copy", "lay", "none", "a2", "new")),
+               Sq(S("image.copy", "lay", "none", "a1", "new")),
                <<F("a1", "2"), S("manifest.getList", "@", "", "", ""), S("m:config", "", "", "", "")>>}
 FailError == {Sq(ErrorStmt), <<S("tag.ls", "a1", "", "", ""), ErrorStmt>>}
 FailScripts == FailBadArg \cup FailAbsent \cup FailNil \cup FailInside \cup FailError
